@@ -6,9 +6,10 @@ import "runtime/debug"
 
 const RaceBuild = false
 
-func raceDisable()     {}
-func raceEnable()      {}
-func drainPools()      {}
+func raceDisable() {}
+func raceEnable()  {}
+func drainPools()  {}
+
 // Episodes should not depend on what the process ran before: every episode
 // starts from empty sync.Pools (see pools.go). Two full collections per episode
 // would do the same but double the cost of a check.
